@@ -605,6 +605,11 @@ func (g *pg) funcDef(i int) lang.Stmt {
 		// be called a, and a still be a variable
 		f.name = clashPool[i]
 	}
+	if g.chance("tinyfn", 10) {
+		// the simplest function there is: nothing to pass, a constant to return
+		g.fns = append(g.fns, f)
+		return lang.FuncDef{N: f.name, Body: []lang.Stmt{lang.Return{X: g.intLit()}}}
+	}
 	np := g.pick("nparams", 3)
 	f.recur = g.chance("recur", 35)
 	f.void = g.chance("void", 15)
